@@ -72,10 +72,11 @@ struct M {
     creq: bool,   // control request (needs ext)
     has_ts: bool, // standard header carries a timestamp
     lvl: u8,      // log level (MTIN) of a log message, 1..=6
+    ft: u8,       // file-transfer message (verbose, log info, needs ext): 0 no, 1 FLST, 2 FLDA, 3 FLFI; `fill` = serial / package size
 }
 impl M {
     fn json(&self) -> Value {
-        json!([self.ecu, self.rt, self.ts, self.mcnt, self.ext, self.apid, self.ctid, self.boot, self.fill, self.creq, self.has_ts, self.lvl])
+        json!([self.ecu, self.rt, self.ts, self.mcnt, self.ext, self.apid, self.ctid, self.boot, self.fill, self.creq, self.has_ts, self.lvl, self.ft])
     }
     fn from_json(v: &Value) -> M {
         M {
@@ -91,21 +92,73 @@ impl M {
             creq: v[9].as_bool().unwrap_or(false),
             has_ts: v[10].as_bool().unwrap_or(true),
             lvl: v[11].as_u64().unwrap_or(4) as u8,
+            ft: v[12].as_u64().unwrap_or(0) as u8,
         }
     }
     /// MSTP/MTIN byte of the extended header: control request, or a non-verbose log message of level `lvl`
     fn vmm(&self) -> u8 {
-        if self.creq {
+        if self.ft != 0 {
+            0x41 // verbose, log, info
+        } else if self.creq {
             (3 << 1) | (1 << 4)
         } else {
             self.lvl << 4
         }
     }
     fn build(&self, uid: u32) -> DltMessage {
-        let mut payload = uid.to_le_bytes().to_vec();
-        payload.extend(std::iter::repeat(0x55u8).take(self.fill as usize));
+        let mut payload = vec![];
+        let mut noar = 0;
+        if self.ft != 0 {
+            // the messages of a file transfer as dlt-daemon's filetransfer library logs them (verbose arguments, little
+            // endian): FLST serial name size date packages buffersize FLST / FLDA serial package data FLDA / FLFI serial FLFI;
+            // serial = fill / 8, package number and size from fill % 8
+            let s = |p: &mut Vec<u8>, t: &str| {
+                p.extend_from_slice(&0x200u32.to_le_bytes());
+                p.extend_from_slice(&(t.len() as u16 + 1).to_le_bytes());
+                p.extend_from_slice(t.as_bytes());
+                p.push(0);
+            };
+            let u = |p: &mut Vec<u8>, v: u32| {
+                p.extend_from_slice(&0x43u32.to_le_bytes());
+                p.extend_from_slice(&v.to_le_bytes());
+            };
+            let (serial, k) = (self.fill / 8, self.fill % 8);
+            match self.ft {
+                1 => {
+                    s(&mut payload, "FLST");
+                    u(&mut payload, serial);
+                    s(&mut payload, &format!("f{}.bin", serial));
+                    u(&mut payload, 4 * (k + 1));
+                    s(&mut payload, "date");
+                    u(&mut payload, k + 1);
+                    payload.extend_from_slice(&0x42u32.to_le_bytes());
+                    payload.extend_from_slice(&4u16.to_le_bytes());
+                    s(&mut payload, "FLST");
+                    noar = 8;
+                }
+                2 => {
+                    s(&mut payload, "FLDA");
+                    u(&mut payload, serial);
+                    u(&mut payload, k + 1);
+                    payload.extend_from_slice(&0x400u32.to_le_bytes());
+                    payload.extend_from_slice(&4u16.to_le_bytes());
+                    payload.extend_from_slice(&uid.to_le_bytes());
+                    s(&mut payload, "FLDA");
+                    noar = 5;
+                }
+                _ => {
+                    s(&mut payload, "FLFI");
+                    u(&mut payload, serial);
+                    s(&mut payload, "FLFI");
+                    noar = 3;
+                }
+            }
+        } else {
+            payload = uid.to_le_bytes().to_vec();
+            payload.extend(std::iter::repeat(0x55u8).take(self.fill as usize));
+        }
         let ext = if self.ext {
-            Some(DltExtendedHeader { verb_mstp_mtin: self.vmm(), noar: 0, apid: DltChar4::from_buf(&apid_id(self.apid)), ctid: DltChar4::from_buf(&ctid_id(self.ctid)) })
+            Some(DltExtendedHeader { verb_mstp_mtin: self.vmm(), noar, apid: DltChar4::from_buf(&apid_id(self.apid)), ctid: DltChar4::from_buf(&ctid_id(self.ctid)) })
         } else {
             None
         };
@@ -127,7 +180,20 @@ struct FileSpec {
     msgs: Vec<u32>,         // uids
     garbage: Vec<Vec<u8>>,  // msgs.len() + 1 runs: before each message and at the end
     missing: bool,          // never created
-    pad: u32,               // number of blanks in front of everything (structural: may exceed the scanned 512 KiB)
+    pad: u32,               // number of garbage bytes in front of everything (structural: may exceed the scanned 512 KiB)
+    padk: u8,               // what they are: 0 blanks, 1 "DLT" repeated (marker prefixes), 2 "DLS"/"DLT"/NUL mix, 3.. pseudo-random bytes without 0x01
+}
+/// the `n` leading garbage bytes of kind `k` (no DLT\x01 / DLS\x01 marker inside, none completed by a following marker)
+fn pad_bytes(n: usize, k: u8) -> Vec<u8> {
+    match k {
+        0 => vec![0x20u8; n],
+        1 => (0..n).map(|i| b"DLT"[i % 3]).collect(),
+        2 => (0..n).map(|i| b"DLS\0DLT\0D"[i % 9]).collect(),
+        _ => {
+            let mut r = Rng::new(0xc14 + k as u64);
+            (0..n).map(|_| { let b = r.next() as u8; if b == 1 { 2 } else { b } }).collect()
+        }
+    }
 }
 #[derive(Clone, Debug)]
 struct Scn {
@@ -137,7 +203,7 @@ struct Scn {
 impl Scn {
     fn json(&self) -> Value {
         json!({"msgs": self.msgs.iter().map(|m| m.json()).collect::<Vec<_>>(),
-               "files": self.files.iter().map(|f| json!({"msgs": f.msgs, "garbage": f.garbage, "missing": f.missing, "pad": f.pad})).collect::<Vec<_>>()})
+               "files": self.files.iter().map(|f| json!({"msgs": f.msgs, "garbage": f.garbage, "missing": f.missing, "pad": f.pad, "padk": f.padk})).collect::<Vec<_>>()})
     }
     fn from_json(v: &Value) -> Scn {
         Scn {
@@ -151,6 +217,7 @@ impl Scn {
                     garbage: serde_json::from_value(f["garbage"].clone()).unwrap(),
                     missing: f["missing"].as_bool().unwrap(),
                     pad: f["pad"].as_u64().unwrap_or(0) as u32,
+                    padk: f["padk"].as_u64().unwrap_or(0) as u8,
                 })
                 .collect(),
         }
@@ -158,7 +225,7 @@ impl Scn {
     fn file_bytes(&self, k: usize) -> (Vec<u8>, usize) {
         // bytes and the number of messages that end within the first SCAN bytes
         let f = &self.files[k];
-        let mut out = vec![0x20u8; f.pad as usize];
+        let mut out = pad_bytes(f.pad as usize, f.padk);
         let mut scan = 0;
         for (i, uid) in f.msgs.iter().enumerate() {
             out.extend_from_slice(&f.garbage[i]);
@@ -575,8 +642,18 @@ fn materialize(scn: &Scn, o: &Opts) -> PreMat {
     }
 }
 
+/// `--file_transfer=<glob>` (+ `--file_transfer_apid/_ctid`): the file-transfer plugin sits between lifecycle detection
+/// and the selection stages; the command line configures it to KEEP every message (keepFLDA = true), so the option
+/// must not change which messages are emitted
+#[derive(Clone, Debug, PartialEq)]
+struct Ft {
+    glob: String,
+    apid: Option<String>,
+    ctid: Option<String>,
+}
 #[derive(Clone, Debug, PartialEq)]
 struct Opts {
+    ft: Option<Ft>,
     b: Option<u32>,
     e: Option<u32>,
     lcs: Vec<u32>,
@@ -591,16 +668,22 @@ struct Opts {
 }
 impl Opts {
     fn none(style: u8) -> Opts {
-        Opts { b: None, e: None, lcs: vec![], ffmt: 0, ffilters: vec![], eac: vec![], eac_style: 0, sort: false, style, ofile: false, pre: Pre::Absent }
+        Opts { ft: None, b: None, e: None, lcs: vec![], ffmt: 0, ffilters: vec![], eac: vec![], eac_style: 0, sort: false, style, ofile: false, pre: Pre::Absent }
     }
     fn json(&self) -> Value {
-        json!({"b": self.b, "e": self.e, "lcs": self.lcs, "ffmt": self.ffmt,
+        json!({"ft": self.ft.as_ref().map(|f| json!({"glob": f.glob, "apid": f.apid, "ctid": f.ctid})),
+               "b": self.b, "e": self.e, "lcs": self.lcs, "ffmt": self.ffmt,
                "ffilters": self.ffilters.iter().map(|f| f.json()).collect::<Vec<_>>(),
                "eac": self.eac.iter().map(|f| f.json()).collect::<Vec<_>>(), "eac_style": self.eac_style,
                "sort": self.sort, "style": self.style, "ofile": self.ofile, "pre": self.pre.json()})
     }
     fn from_json(v: &Value) -> Opts {
         Opts {
+            ft: if v["ft"].is_object() {
+                Some(Ft { glob: v["ft"]["glob"].as_str().unwrap().to_string(), apid: v["ft"]["apid"].as_str().map(|x| x.to_string()), ctid: v["ft"]["ctid"].as_str().map(|x| x.to_string()) })
+            } else {
+                None
+            },
             b: v["b"].as_u64().map(|x| x as u32),
             e: v["e"].as_u64().map(|x| x as u32),
             lcs: serde_json::from_value(v["lcs"].clone()).unwrap(),
@@ -782,6 +865,16 @@ fn exec_adlt(scn_dir: &Path, inv_dir: &Path, args: &[ArgSpec], o: &Opts, opath: 
     if o.sort {
         cmd.arg("--sort");
     }
+    if let Some(ft) = &o.ft {
+        cmd.arg(format!("--file_transfer={}", ft.glob));
+        cmd.arg("--file_transfer_path").arg(inv_dir.join(format!("ft{}", tag)));
+        if let Some(a) = &ft.apid {
+            cmd.arg("--file_transfer_apid").arg(a);
+        }
+        if let Some(c) = &ft.ctid {
+            cmd.arg("--file_transfer_ctid").arg(c);
+        }
+    }
     if o.ofile {
         cmd.arg("-o").arg(opath);
     }
@@ -890,14 +983,31 @@ fn same_msg(a: &DltMessage, b: &DltMessage) -> bool {
         && a.extended_header == b.extended_header
         && a.payload == b.payload
 }
-fn parse_out(scn: &Scn, r: &RunOut, style: u8) -> Parsed {
+fn parse_out(scn: &Scn, r: &RunOut, style: u8, ft: bool) -> Parsed {
     let mut key: HashMap<(u8, u32, u8), u32> = HashMap::new();
     for (uid, m) in scn.msgs.iter().enumerate() {
         key.insert((m.ecu, if m.has_ts { m.ts } else { 0 }, m.mcnt), uid as u32);
     }
+    // a re-read message is identified by (ECU, timestamp, message counter) - unique by construction - and then compared
+    // with the original field by field (same_msg)
+    let uid_of = |m: &DltMessage| -> u32 {
+        let e = m.ecu.as_buf();
+        if &e[0..2] != b"EC" {
+            return u32::MAX;
+        }
+        let ecu = (e[2].wrapping_sub(b'0')).wrapping_mul(10).wrapping_add(e[3].wrapping_sub(b'0'));
+        key.get(&(ecu, m.timestamp_dms, m.standard_header.mcnt)).cloned().unwrap_or(u32::MAX)
+    };
     let mut p = Parsed { screen: vec![], listing: None, file: None, prior: None, problems: vec![] };
+    // with --file_transfer the plugin appends its summary: warnings, "have N file transfers:", one "LC# .." row per transfer
+    let summary_at = if ft {
+        r.lines.iter().position(|l| (l.starts_with("have ") && l.ends_with(" file transfers:")) || (l.starts_with("Plugin ") && l.contains(" generated ")))
+    } else {
+        None
+    };
+    let lines = &r.lines[..summary_at.unwrap_or(r.lines.len())];
     if style != 0 {
-        for l in &r.lines {
+        for l in lines {
             let t: Vec<&str> = l.split_whitespace().collect();
             let parsed = (|| {
                 if t.len() < 8 {
@@ -922,7 +1032,7 @@ fn parse_out(scn: &Scn, r: &RunOut, style: u8) -> Parsed {
     } else {
         let mut rows = vec![];
         let mut announced = None;
-        for l in &r.lines {
+        for l in lines {
             if let Some(rest) = l.strip_prefix("have ") {
                 announced = rest.split_whitespace().next().and_then(|x| x.parse::<usize>().ok());
             } else if let Some(rest) = l.strip_prefix("LC#") {
@@ -956,7 +1066,7 @@ fn parse_out(scn: &Scn, r: &RunOut, style: u8) -> Parsed {
     if let Some(ms) = &r.ofile {
         let mut uids = vec![];
         for m in ms {
-            let uid = if m.payload.len() >= 4 { u32::from_le_bytes([m.payload[0], m.payload[1], m.payload[2], m.payload[3]]) } else { u32::MAX };
+            let uid = uid_of(m);
             if (uid as usize) < scn.msgs.len() && same_msg(m, &scn.msgs[uid as usize].build(uid)) {
                 uids.push(uid);
             } else {
@@ -970,7 +1080,7 @@ fn parse_out(scn: &Scn, r: &RunOut, style: u8) -> Parsed {
         p.prior = Some(
             ms.iter()
                 .map(|m| {
-                    let uid = if m.payload.len() >= 4 { u32::from_le_bytes([m.payload[0], m.payload[1], m.payload[2], m.payload[3]]) } else { u32::MAX };
+                    let uid = uid_of(m);
                     if (uid as usize) < scn.msgs.len() && same_msg(m, &scn.msgs[uid as usize].build(uid)) {
                         uid
                     } else {
@@ -1116,14 +1226,89 @@ fn distinct_first_times(scn: &Scn, args: &[ArgSpec]) -> bool {
     ts.len() == n
 }
 
+/// The unfiltered input of a run on several files, stated on the generated files alone (no model, no run of the tool):
+/// files whose sets of ECU ids are EQUAL form one stream and are chained in the order of their first reception time,
+/// files with DIFFERENT sets are parallel streams that are merged message by message by reception time.  The set of a
+/// file = the ECUs of the messages that lie completely inside the first 512 KiB (the documented range of the probe,
+/// `DltFileInfos::ecus_seen`: "the ECU ids within the read_size range"); `drop_first`: the (wrong) classification that
+/// forgets the ECU of the first message unless it occurs again - used for statistics only.
+/// None: two different files of one stream have the same first reception time (the chain order is not determined).
+fn ecu_set(scn: &Scn, k: usize, drop_first: bool) -> BTreeSet<u8> {
+    let n = scn.file_bytes(k).1;
+    scn.files[k].msgs[if drop_first { 1.min(n) } else { 0 }..n].iter().map(|u| scn.msgs[*u as usize].ecu).collect()
+}
+fn expected_streams(scn: &Scn, args: &[ArgSpec], drop_first: bool) -> Option<Vec<Vec<usize>>> {
+    let mut named: Vec<usize> = vec![];
+    for a in args {
+        if !named.contains(&a.0) && !scn.files[a.0].missing && scn.file_bytes(a.0).1 > 0 {
+            named.push(a.0);
+        }
+    }
+    let mut groups: Vec<(BTreeSet<u8>, Vec<usize>)> = vec![];
+    for k in named {
+        let set = ecu_set(scn, k, drop_first);
+        match groups.iter_mut().find(|g| g.0 == set) {
+            Some(g) => g.1.push(k),
+            None => groups.push((set, vec![k])),
+        }
+    }
+    let mut streams = vec![];
+    for (_, mut fs) in groups {
+        fs.sort_by_key(|k| scn.first_rt(*k).unwrap());
+        if fs.windows(2).any(|w| scn.first_rt(w[0]) == scn.first_rt(w[1])) {
+            return None;
+        }
+        streams.push(fs);
+    }
+    streams.sort_by_key(|fs| scn.first_rt(fs[0]).unwrap());
+    Some(streams)
+}
+/// is `got` (uids) a merge by reception time of the streams (each the concatenation of its files)?  Every emitted
+/// message must be the next message of its stream and no other stream may have a next message with an EARLIER
+/// reception time (equal times: either order).
+fn merge_accepts(scn: &Scn, streams: &[Vec<usize>], got: &[u32]) -> Result<(), String> {
+    let seqs: Vec<Vec<u32>> = streams.iter().map(|fs| fs.iter().flat_map(|k| scn.files[*k].msgs.iter().cloned()).collect()).collect();
+    let mut pos = vec![0usize; seqs.len()];
+    let rt = |u: u32| scn.msgs[u as usize].rt;
+    let show = |u: u32| { let m = &scn.msgs[u as usize]; format!("uid {} (EC{:02}, +{}us)", u, m.ecu, m.rt.wrapping_sub(RHO)) };
+    for (i, u) in got.iter().enumerate() {
+        let s = match (0..seqs.len()).find(|s| pos[*s] < seqs[*s].len() && seqs[*s][pos[*s]] == *u) {
+            Some(s) => s,
+            None => {
+                let heads: Vec<String> = (0..seqs.len()).filter(|s| pos[*s] < seqs[*s].len()).map(|s| show(seqs[s][pos[s]])).collect();
+                return Err(format!("index {}: {} is not the next message of its stream; the streams are at {:?}", i, show(*u), heads));
+            }
+        };
+        if let Some(t) = (0..seqs.len()).filter(|t| *t != s && pos[*t] < seqs[*t].len()).find(|t| rt(seqs[*t][pos[*t]]) < rt(*u)) {
+            return Err(format!("index {}: {} of stream {:?} is emitted while {} of the parallel stream {:?} was received earlier", i, show(*u), streams[s], show(seqs[t][pos[t]]), streams[t]));
+        }
+        pos[s] += 1;
+    }
+    if let Some(s) = (0..seqs.len()).find(|s| pos[*s] < seqs[*s].len()) {
+        return Err(format!("{} of stream {:?} is never emitted", show(seqs[s][pos[s]]), streams[s]));
+    }
+    Ok(())
+}
+/// one run of that merge (ties: the first stream), for statistics
+fn merge_first(scn: &Scn, streams: &[Vec<usize>]) -> Vec<u32> {
+    let seqs: Vec<Vec<u32>> = streams.iter().map(|fs| fs.iter().flat_map(|k| scn.files[*k].msgs.iter().cloned()).collect()).collect();
+    let mut pos = vec![0usize; seqs.len()];
+    let mut out = vec![];
+    while let Some(s) = (0..seqs.len()).filter(|s| pos[*s] < seqs[*s].len()).min_by_key(|s| scn.msgs[seqs[*s][pos[*s]] as usize].rt) {
+        out.push(seqs[s][pos[s]]);
+        pos[s] += 1;
+    }
+    out
+}
+
 fn record(sink: &mut Sink, w: &World, scn_no: usize, args: &[ArgSpec], o: &Opts, extra_tags: &[&str]) {
     let scn = &w.scns[scn_no];
     let r = w.get(scn_no, args, o);
     let rb = w.get(scn_no, args, &Opts::none(3));
     let rc = w.get(scn_no, &canon_args(args), &Opts::none(3));
-    let p = parse_out(scn, r, o.style);
-    let pb = parse_out(scn, rb, 3);
-    let pc = parse_out(scn, rc, 3);
+    let p = parse_out(scn, r, o.style, o.ft.is_some());
+    let pb = parse_out(scn, rb, 3, false);
+    let pc = parse_out(scn, rc, 3, false);
     let filters = o.filters();
     let t = truth(scn, &pb.screen);
     let dft = distinct_first_times(scn, args);
@@ -1201,6 +1386,14 @@ fn record(sink: &mut Sink, w: &World, scn_no: usize, args: &[ArgSpec], o: &Opts,
             files_named.iter().filter(|k| !scn.files[**k].missing && scn.file_bytes(**k).1 > 0).flat_map(|k| scn.files[*k].msgs.iter().cloned()).collect();
         if pb.screen.iter().any(|x| !known.contains(&x.1)) {
             return fail("only_input_messages", "baseline contains a message of no named file".into());
+        }
+        // several files: equal ECU sets are chained by first reception time, different sets merged by reception time
+        if let Some(streams) = expected_streams(scn, args, false) {
+            let got: Vec<u32> = pb.screen.iter().map(|x| x.1).collect();
+            if let Err(e) = merge_accepts(scn, &streams, &got) {
+                let sets: Vec<String> = streams.iter().map(|fs| format!("files {:?} (ECUs {:?})", fs, ecu_set(scn, fs[0], false))).collect();
+                return fail("input_streams_by_ecu_set", format!("expected streams {}: {}", sets.join(" | "), e));
+            }
         }
         // file order irrelevant
         if dft && pb.screen != pc.screen {
@@ -1384,6 +1577,13 @@ fn record(sink: &mut Sink, w: &World, scn_no: usize, args: &[ArgSpec], o: &Opts,
     }
     if o.ffmt == 2 {
         tags.push("opt_f_conv".into());
+        // a record whose CTID is shorter than its APID ("AP02 C3-- ") and that names a message of the input
+        if o.ffilters.iter().any(|f| {
+            let (ta, tc) = (f.apid.as_ref().map_or("", |c| c.text.as_str()), f.ctid.as_ref().map_or("", |c| c.text.as_str()));
+            !tc.is_empty() && tc.len() < ta.len() && pb.screen.iter().any(|x| f.verdict(Front::Conv, &scn.msgs[x.1 as usize]))
+        }) {
+            tags.push("conv_record_short_ctid_matches".into());
+        }
     }
     {
         let nneg = filters.iter().filter(|f| f.1.enabled && f.1.kind == 1).count();
@@ -1477,6 +1677,69 @@ fn record(sink: &mut Sink, w: &World, scn_no: usize, args: &[ArgSpec], o: &Opts,
     if !dft {
         tags.push("first_times_tie".into());
     }
+    match (expected_streams(scn, args, false), expected_streams(scn, args, true)) {
+        (Some(st), other) => {
+            tags.push(format!("streams{}", st.len().min(5)));
+            if st.iter().any(|fs| fs.len() > 1) {
+                tags.push("stream_of_several_files".into());
+            }
+            if st.iter().any(|fs| fs.windows(2).any(|w| scn.files[w[0]].msgs.last().map(|u| scn.msgs[*u as usize].rt) > scn.first_rt(w[1]))) {
+                tags.push("chained_files_overlap_in_time".into());
+            }
+            if let Some(st2) = other {
+                let norm = |v: &Vec<Vec<usize>>| { let mut v = v.clone(); v.sort(); v };
+                if norm(&st) != norm(&st2) {
+                    // a file's first message is the only one of its ECU (or its only message) and another file has the remaining set
+                    tags.push("partition_depends_on_first_msg_ecu".into());
+                    if merge_first(scn, &st) != merge_first(scn, &st2) {
+                        tags.push("first_msg_ecu_decides_input_order".into());
+                    }
+                }
+            }
+        }
+        (None, _) => tags.push("stream_order_undetermined".into()),
+    }
+    for k in &files_named {
+        let f = &scn.files[*k];
+        if f.missing {
+            continue;
+        }
+        let n = scn.file_bytes(*k).1;
+        if n == 1 && f.msgs.len() == 1 {
+            tags.push("single_message_file".into());
+        }
+        if n > 0 && n < f.msgs.len() {
+            let all: BTreeSet<u8> = f.msgs.iter().map(|u| scn.msgs[*u as usize].ecu).collect();
+            if all != ecu_set(scn, *k, false) {
+                tags.push("ecu_only_beyond_scan_range".into());
+            }
+        }
+        if n >= 2 {
+            let e = |i: usize| scn.msgs[f.msgs[i] as usize].ecu;
+            if (0..n - 1).all(|i| e(i) != e(n - 1)) {
+                tags.push("ecu_only_in_last_scanned_msg".into());
+            }
+        }
+        // where the first message lies / how large it is (the probe must find it anywhere in its 512 KiB)
+        if let Some(u) = f.msgs.first() {
+            let lead = f.pad as usize + f.garbage[0].len();
+            let mut one = vec![];
+            scn.msgs[*u as usize].build(*u).to_write(&mut one).unwrap();
+            for (lim, name) in [(8usize << 10, "8k"), (64 << 10, "64k"), (256 << 10, "256k")] {
+                if lead + one.len() > lim {
+                    tags.push(format!("first_msg_ends_beyond_{}", name));
+                }
+            }
+            if lead + one.len() > SCAN {
+                tags.push("first_msg_beyond_scan_range".into());
+            }
+            if one.len() > 8 << 10 {
+                tags.push("first_msg_larger_than_8k".into());
+            }
+        }
+    }
+    tags.sort();
+    tags.dedup();
     if scn.msgs.iter().any(|m| m.boot == u32::MAX) {
         tags.push("messy_trace".into());
     }
@@ -1570,6 +1833,7 @@ fn gen_msgs(rng: &mut Rng, necu: u64, max_per_boot: u64, grid: u64) -> Vec<M> {
                     creq: false,
                     has_ts: true,
                     lvl: rng.range(1, 6) as u8,
+                    ft: 0,
                 });
             }
             // next boot: at least 1 ms after the last message was generated
@@ -1685,15 +1949,15 @@ fn gen_scn(rng: &mut Rng, big: bool) -> Scn {
         .map(|msgs| {
             let with_garbage = rng.chance(1, 2);
             let garbage = (0..=msgs.len()).map(|_| if with_garbage && rng.chance(1, 3) { gen_garbage(rng, 12) } else { vec![] }).collect();
-            FileSpec { msgs, garbage, missing: false, pad: 0 }
+            FileSpec { msgs, garbage, missing: false, pad: 0, padk: 0 }
         })
         .collect();
     // odd files: missing, empty, garbage only
     if rng.chance(1, 5) {
-        fs.push(FileSpec { msgs: vec![], garbage: vec![vec![]], missing: true, pad: 0 });
+        fs.push(FileSpec { msgs: vec![], garbage: vec![vec![]], missing: true, pad: 0, padk: 0 });
     }
     if rng.chance(1, 6) {
-        fs.push(FileSpec { msgs: vec![], garbage: vec![if rng.chance(1, 2) { vec![] } else { gen_garbage(rng, 40) }], missing: false, pad: 0 });
+        fs.push(FileSpec { msgs: vec![], garbage: vec![if rng.chance(1, 2) { vec![] } else { gen_garbage(rng, 40) }], missing: false, pad: 0, padk: 0 });
     }
     Scn { msgs, files: fs }
 }
@@ -1834,6 +2098,22 @@ fn gen_flt(rng: &mut Rng, necu: u64, kind: u8, front: Front) -> Flt {
     f
 }
 
+/// a dlt-convert format record "APID CTID " that names a message of the input (so that the record selects something);
+/// preferably one whose CTID is SHORTER than its APID (the record is then "AP02 C3-- ": each id is filled up with '-')
+fn conv_record_of_input(rng: &mut Rng, scn: &Scn) -> Option<Flt> {
+    let ext: Vec<&M> = scn.msgs.iter().filter(|m| m.ext && m.apid != 0 && m.ctid != 0).collect();
+    if ext.is_empty() {
+        return None;
+    }
+    let len = |b: [u8; 4]| id_str(&b).len();
+    let shorter: Vec<&&M> = ext.iter().filter(|m| len(ctid_id(m.ctid)) < len(apid_id(m.apid))).collect();
+    let m: &M = if !shorter.is_empty() && rng.chance(2, 3) { **rng.pick(&shorter) } else { *rng.pick(&ext) };
+    let mut f = Flt::new(0);
+    f.apid = Some(Crit::lit(&id_str(&apid_id(m.apid))));
+    f.ctid = Some(Crit::lit(&id_str(&ctid_id(m.ctid))));
+    Some(f)
+}
+
 fn gen_opts(rng: &mut Rng, scn: &Scn, n: usize, nlc: u32, lcs_ok: bool, depth: u32) -> Opts {
     let necu = scn.msgs.iter().map(|m| m.ecu).max().unwrap_or(1) as u64;
     let mut o = Opts::none(0);
@@ -1939,6 +2219,11 @@ fn gen_opts(rng: &mut Rng, scn: &Scn, n: usize, nlc: u32, lcs_ok: bool, depth: u
                 let mut f = Flt::new(0);
                 f.apid = if rng.chance(1, 5) { Some(Crit::lit("")) } else { Some(gen_crit(rng, IdKind::Apid, necu, Front::Conv)) };
                 f.ctid = if rng.chance(1, 5) { Some(Crit::lit("")) } else { Some(gen_crit(rng, IdKind::Ctid, necu, Front::Conv)) };
+                if rng.chance(1, 3) {
+                    if let Some(g) = conv_record_of_input(rng, scn) {
+                        f = g;
+                    }
+                }
                 o.ffilters.push(f);
             }
         }
@@ -1955,6 +2240,9 @@ fn gen_opts(rng: &mut Rng, scn: &Scn, n: usize, nlc: u32, lcs_ok: bool, depth: u
     }
     o.sort = rng.chance(1, 4);
     o.style = rng.below(4) as u8;
+    if depth == 0 && rng.chance(1, 8) {
+        o.ft = Some(gen_ft(rng, None));
+    }
     o.ofile = rng.chance(1, 2) || o.style == 0 || depth > 0;
     if o.ofile {
         o.pre = gen_pre(rng, scn, n as usize, nlc, lcs_ok, depth);
@@ -2014,7 +2302,7 @@ fn shuffle<T>(rng: &mut Rng, v: &mut Vec<T>) {
 /// four single-ECU files, first messages at distinct times, two later messages tie: the heap merge pops them in an
 /// order that depends on the order in which the streams were pushed (the order of the file arguments before the fix)
 fn corpus_tie() -> Scn {
-    let mk = |ecu: u8, rt: u64, ts: u32, mcnt: u8| M { ecu, rt, ts, mcnt, ext: false, apid: 0, ctid: 0, boot: 0, fill: 0, creq: false, has_ts: true, lvl: 4 };
+    let mk = |ecu: u8, rt: u64, ts: u32, mcnt: u8| M { ecu, rt, ts, mcnt, ext: false, apid: 0, ctid: 0, boot: 0, fill: 0, creq: false, has_ts: true, lvl: 4, ft: 0 };
     let msgs = vec![
         mk(1, RHO + 100, 0, 0),
         mk(1, RHO + 300, 2, 1), // the tie: both second messages are received at the same time
@@ -2023,7 +2311,7 @@ fn corpus_tie() -> Scn {
         mk(3, RHO + 250, 0, 4),
         mk(4, RHO + 260, 0, 5),
     ];
-    let f = |v: Vec<u32>| FileSpec { garbage: vec![vec![]; v.len() + 1], msgs: v, missing: false, pad: 0 };
+    let f = |v: Vec<u32>| FileSpec { garbage: vec![vec![]; v.len() + 1], msgs: v, missing: false, pad: 0, padk: 0 };
     let s = Scn { msgs, files: vec![f(vec![0, 1]), f(vec![2, 3]), f(vec![4]), f(vec![5])] };
     s
 }
@@ -2031,14 +2319,14 @@ fn corpus_tie() -> Scn {
 /// odd files: 0 normal (ECU 1), 1 missing, 2 empty, 3 garbage only, 4 a message behind 530000 blanks (beyond the
 /// 512 KiB convert scans: the file counts as one without DLT message), 5 normal (ECU 2)
 fn corpus_odd() -> (Scn, Vec<Vec<usize>>) {
-    let mk = |ecu: u8, rt: u64, ts: u32, mcnt: u8| M { ecu, rt, ts, mcnt, ext: true, apid: 1, ctid: 2, boot: 0, fill: 0, creq: false, has_ts: true, lvl: 4 };
+    let mk = |ecu: u8, rt: u64, ts: u32, mcnt: u8| M { ecu, rt, ts, mcnt, ext: true, apid: 1, ctid: 2, boot: 0, fill: 0, creq: false, has_ts: true, lvl: 4, ft: 0 };
     let msgs = vec![mk(1, RHO, 0, 0), mk(1, RHO + 1_000_000, 10_000, 1), mk(3, RHO + 500_000, 0, 2), mk(2, RHO + 700_000, 0, 3), mk(2, RHO + 900_000, 2_000, 4)];
-    let f = |v: Vec<u32>, pad: u32| FileSpec { garbage: vec![vec![]; v.len() + 1], msgs: v, missing: false, pad };
+    let f = |v: Vec<u32>, pad: u32| FileSpec { garbage: vec![vec![]; v.len() + 1], msgs: v, missing: false, pad, padk: 0 };
     let files = vec![
         f(vec![0, 1], 0),
-        FileSpec { msgs: vec![], garbage: vec![vec![]], missing: true, pad: 0 },
+        FileSpec { msgs: vec![], garbage: vec![vec![]], missing: true, pad: 0, padk: 0 },
         f(vec![], 0),
-        FileSpec { msgs: vec![], garbage: vec![vec![1, 2, 3, b'D', b'L', b'T', 0, 0, 0, 0, 0, 0, 0, 0, 0, 0, 0, 0, 0, 0, 0, 0, 0, 0]], missing: false, pad: 0 },
+        FileSpec { msgs: vec![], garbage: vec![vec![1, 2, 3, b'D', b'L', b'T', 0, 0, 0, 0, 0, 0, 0, 0, 0, 0, 0, 0, 0, 0, 0, 0, 0, 0]], missing: false, pad: 0, padk: 0 },
         f(vec![2], 530_000),
         f(vec![3, 4], 17),
     ];
@@ -2063,10 +2351,10 @@ fn corpus_stream_files() -> (Scn, Vec<Vec<usize>>) {
         fill: 0,
         creq: false,
         has_ts: true,
-        lvl: 4,
+        lvl: 4, ft: 0
     };
     let msgs = vec![mk(1, 5, 5, 0), mk(1, 12, 5, 1), mk(2, 8, 8, 2), mk(3, 3, 3, 3), mk(3, 12, 3, 4), mk(4, 11, 11, 5)];
-    let f = |v: Vec<u32>| FileSpec { garbage: vec![vec![]; v.len() + 1], msgs: v, missing: false, pad: 0 };
+    let f = |v: Vec<u32>| FileSpec { garbage: vec![vec![]; v.len() + 1], msgs: v, missing: false, pad: 0, padk: 0 };
     let files = vec![f(vec![0]), f(vec![1]), f(vec![2]), f(vec![3, 4]), f(vec![5])];
     // chronological, a2 before a1, and more permutations (several name a2 first / before a1)
     let lists = vec![vec![0, 1, 2, 3, 4], vec![1, 0, 2, 3, 4], vec![4, 3, 2, 1, 0], vec![2, 1, 3, 0, 4], vec![3, 1, 4, 2, 0], vec![1, 2, 3, 4, 0], vec![0, 2, 3, 4, 1]];
@@ -2108,6 +2396,7 @@ fn gen_multi(rng: &mut Rng) -> (Scn, Vec<Vec<ArgSpec>>) {
                     creq: false,
                     has_ts: true,
                     lvl: rng.range(1, 6) as u8,
+                    ft: 0,
                 });
             }
             per_ecu.push(uids);
@@ -2148,7 +2437,7 @@ fn gen_multi(rng: &mut Rng) -> (Scn, Vec<Vec<ArgSpec>>) {
         }
         // file numbers in random order, so that the canonical (file-number) order is not the chronological one
         shuffle(rng, &mut files);
-        let fs: Vec<FileSpec> = files.into_iter().map(|m| FileSpec { garbage: vec![vec![]; m.len() + 1], msgs: m, missing: false, pad: 0 }).collect();
+        let fs: Vec<FileSpec> = files.into_iter().map(|m| FileSpec { garbage: vec![vec![]; m.len() + 1], msgs: m, missing: false, pad: 0, padk: 0 }).collect();
         let scn = Scn { msgs, files: fs };
         let nf = scn.files.len();
         let base: Vec<ArgSpec> = (0..nf).map(|k| (k, false)).collect();
@@ -2185,10 +2474,10 @@ fn corpus_filters() -> (Scn, Vec<Opts>) {
             fill: 0,
             creq: false,
             has_ts: true,
-            lvl: (k % 6) as u8 + 1,
+            lvl: (k % 6) as u8 + 1, ft: 0
         });
     }
-    let f = |v: Vec<u32>| FileSpec { garbage: vec![vec![]; v.len() + 1], msgs: v, missing: false, pad: 0 };
+    let f = |v: Vec<u32>| FileSpec { garbage: vec![vec![]; v.len() + 1], msgs: v, missing: false, pad: 0, padk: 0 };
     let scn = Scn { files: vec![f((0..12).filter(|k| k % 2 == 0).collect()), f((0..12).filter(|k| k % 2 == 1).collect())], msgs };
     let fl = |kind: u8, enabled: bool, ecu: Vec<u8>, apid: Option<u8>, ctid: Option<u8>| {
         let ecu: Vec<String> = ecu.iter().map(|e| id_str(&ecu_id(*e))).collect();
@@ -2229,9 +2518,9 @@ fn corpus_filters() -> (Scn, Vec<Opts>) {
 /// times in a row
 fn corpus_out_path() -> (Scn, Vec<Opts>) {
     let msgs: Vec<M> = (0..10u32)
-        .map(|k| M { ecu: 1, rt: RHO + k as u64 * 50_000, ts: k * 500, mcnt: k as u8, ext: true, apid: (k % 3) as u8 + 1, ctid: 1, boot: 0, fill: if k == 7 { 300 } else { 0 }, creq: false, has_ts: true, lvl: 4 })
+        .map(|k| M { ecu: 1, rt: RHO + k as u64 * 50_000, ts: k * 500, mcnt: k as u8, ext: true, apid: (k % 3) as u8 + 1, ctid: 1, boot: 0, fill: if k == 7 { 300 } else { 0 }, creq: false, has_ts: true, lvl: 4, ft: 0 })
         .collect();
-    let scn = Scn { files: vec![FileSpec { garbage: vec![vec![]; 11], msgs: (0..10).collect(), missing: false, pad: 0 }, FileSpec { msgs: vec![], garbage: vec![vec![]], missing: true, pad: 0 }], msgs };
+    let scn = Scn { files: vec![FileSpec { garbage: vec![vec![]; 11], msgs: (0..10).collect(), missing: false, pad: 0, padk: 0 }, FileSpec { msgs: vec![], garbage: vec![vec![]], missing: true, pad: 0, padk: 0 }], msgs };
     let win = |b: Option<u32>, e: Option<u32>, style: u8, pre: Pre| {
         let mut o = Opts::none(style);
         o.b = b;
@@ -2295,10 +2584,10 @@ fn corpus_id_expressions() -> (Scn, Vec<Opts>) {
             fill: 0,
             creq: k == 7,
             has_ts: true,
-            lvl: (k % 6) as u8 + 1,
+            lvl: (k % 6) as u8 + 1, ft: 0
         });
     }
-    let f = |v: Vec<u32>| FileSpec { garbage: vec![vec![]; v.len() + 1], msgs: v, missing: false, pad: 0 };
+    let f = |v: Vec<u32>| FileSpec { garbage: vec![vec![]; v.len() + 1], msgs: v, missing: false, pad: 0, padk: 0 };
     let scn = Scn { files: vec![f((0..18).filter(|k| k % 2 == 0).collect()), f((0..18).filter(|k| k % 2 == 1).collect())], msgs };
     let re = |t: &str, flag: Option<bool>| Some(Crit { text: t.to_string(), flag });
     let mk = |kind: u8, ecu: Option<Crit>, apid: Option<Crit>, ctid: Option<Crit>| {
@@ -2392,6 +2681,7 @@ fn gen_resume(rng: &mut Rng) -> Scn {
             creq: false,
             has_ts: true,
             lvl: rng.range(1, 6) as u8,
+            ft: 0,
         });
     };
     // ECU 1: first part of the lifecycle, start estimate T
@@ -2443,7 +2733,7 @@ fn gen_resume(rng: &mut Rng) -> Scn {
         }
         used.insert((m.ecu, m.ts, m.mcnt));
     }
-    let f = |v: Vec<u32>| FileSpec { garbage: vec![vec![]; v.len() + 1], msgs: v, missing: false, pad: 0 };
+    let f = |v: Vec<u32>| FileSpec { garbage: vec![vec![]; v.len() + 1], msgs: v, missing: false, pad: 0, padk: 0 };
     let files = if rng.chance(1, 2) {
         vec![f(order)]
     } else {
@@ -2479,6 +2769,7 @@ fn gen_tied(rng: &mut Rng) -> (Scn, Vec<Vec<ArgSpec>>) {
             creq: false,
             has_ts: true,
             lvl: rng.range(1, 6) as u8,
+            ft: 0,
         });
         msgs.len() as u32 - 1
     };
@@ -2508,7 +2799,7 @@ fn gen_tied(rng: &mut Rng) -> (Scn, Vec<Vec<ArgSpec>>) {
         }
         files.push(f);
     }
-    let fs: Vec<FileSpec> = files.into_iter().map(|m| FileSpec { garbage: vec![vec![]; m.len() + 1], msgs: m, missing: false, pad: 0 }).collect();
+    let fs: Vec<FileSpec> = files.into_iter().map(|m| FileSpec { garbage: vec![vec![]; m.len() + 1], msgs: m, missing: false, pad: 0, padk: 0 }).collect();
     let scn = Scn { msgs, files: fs };
     let base: Vec<ArgSpec> = (0..scn.files.len()).map(|k| (k, false)).collect();
     let mut rev = base.clone();
@@ -2519,6 +2810,465 @@ fn gen_tied(rng: &mut Rng) -> (Scn, Vec<Vec<ArgSpec>>) {
     let at = rng.below(twice.len() as u64 + 1) as usize;
     twice.insert(at, (k, rng.chance(1, 2)));
     (scn, vec![base, rev, twice])
+}
+
+/// size of the frame `to_write` produces for a message
+fn frame_len(m: &M) -> usize {
+    let mut one = vec![];
+    m.build(0).to_write(&mut one).unwrap();
+    one.len()
+}
+/// moves file `k` (by leading garbage) so that its message number `idx` ends exactly `delta` bytes after the end of the
+/// scanned range (delta <= 0: the message is the last one inside the range; delta > 0: it is cut by / behind the range)
+fn align_to_scan(scn: &mut Scn, k: usize, idx: usize, delta: i64) -> bool {
+    scn.files[k].pad = 0;
+    let mut end = 0usize;
+    for i in 0..=idx {
+        end += scn.files[k].garbage[i].len() + frame_len(&scn.msgs[scn.files[k].msgs[i] as usize]);
+    }
+    let want = SCAN as i64 + delta;
+    if (end as i64) > want {
+        return false;
+    }
+    scn.files[k].pad = (want - end as i64) as u32;
+    true
+}
+
+/// family aimed at the classification of the input files by their ECU sets (class of seeded C14-7 / C09-7): 2-4 files
+/// that overlap in reception time; one file has only the base ECUs, the others differ from it by ONE message of another
+/// ECU - as first, as last, as a middle message, within the first 8 KiB / 64 KiB / just inside / just behind the 512 KiB
+/// the probe looks at -, or consist of a single message, or start with the only message of one of the base ECUs.
+/// Shapes: 0 plain, 1 extra ECU first, 2 extra ECU last, 3 extra ECU in the middle, 4 single message, 5 first message is
+/// the only one of a base ECU, 6 [extra, base] (two messages), 7 extra ECU first and again later (control).
+/// `late`: 0 all messages small, 1 the extra message lies behind 8 KiB, 2 behind 64 KiB, 3 is the last message inside the
+/// 512 KiB, 4 is cut by the end of the 512 KiB (structurally: earlier messages carry large payloads, `pad` aligns).
+fn gen_ecu_edges(rng: &mut Rng, force: Option<(u8, u8)>) -> (Scn, Vec<Vec<ArgSpec>>) {
+    loop {
+        let ns = if rng.chance(2, 3) { 1u8 } else { 2 };
+        let nf = rng.range(2, 4) as usize;
+        let mut shapes: Vec<(u8, u8)> = vec![(0, 0)];
+        for i in 1..nf {
+            let sh = match (i, force) {
+                (1, Some(f)) => f,
+                _ => {
+                    let sh = *rng.pick(&[0u8, 1, 1, 1, 2, 2, 3, 4, 4, 5, 6, 7]);
+                    let late = if (sh == 2 || sh == 3) && rng.chance(1, 4) { rng.range(1, 2) as u8 } else { 0 };
+                    (sh, late)
+                }
+            };
+            shapes.push(if sh.0 == 5 && ns < 2 { (1, 0) } else { sh });
+        }
+        // ECU sequence of every file
+        let extra = |rng: &mut Rng| ns + 1 + rng.below(2) as u8;
+        let base = |rng: &mut Rng| rng.range(1, ns as u64) as u8;
+        let mut ecus: Vec<Vec<u8>> = vec![];
+        let mut big_at: Vec<Option<(usize, usize)>> = vec![]; // (index of the message behind the large ones, number of large messages)
+        for (sh, late) in &shapes {
+            let mut plain: Vec<u8> = vec![];
+            for e in 1..=ns {
+                plain.push(e);
+                plain.push(e);
+            }
+            for _ in 0..rng.below(3) {
+                plain.push(base(rng));
+            }
+            shuffle(rng, &mut plain);
+            let mut v = match sh {
+                0 => plain,
+                1 => {
+                    let mut v = vec![extra(rng)];
+                    v.extend(plain);
+                    v
+                }
+                2 => {
+                    plain.push(extra(rng));
+                    plain
+                }
+                3 => {
+                    let at = rng.range(1, plain.len() as u64 - 1) as usize;
+                    plain.insert(at, extra(rng));
+                    plain
+                }
+                4 => vec![base(rng)],
+                5 => {
+                    let mut v = vec![1u8];
+                    v.extend(std::iter::repeat(2u8).take(rng.range(2, 4) as usize));
+                    v
+                }
+                6 => vec![extra(rng), base(rng)],
+                _ => {
+                    let x = extra(rng);
+                    let mut v = vec![x];
+                    v.extend(plain);
+                    let at = rng.range(2, v.len() as u64) as usize;
+                    v.insert(at, x);
+                    v
+                }
+            };
+            let mut big = None;
+            if *late > 0 && (*sh == 2 || *sh == 3) {
+                // large messages of base ECUs in front of the extra one
+                let x = v.iter().position(|e| *e > ns).unwrap();
+                let nbig = match late {
+                    1 => 1,
+                    2 => 2,
+                    _ => 8,
+                };
+                let mut w: Vec<u8> = v[..x].to_vec();
+                while w.len() < nbig + 1 {
+                    w.push(base(rng));
+                }
+                let at = w.len();
+                w.extend_from_slice(&v[x..]);
+                v = w;
+                big = Some((at, nbig));
+            }
+            ecus.push(v);
+            big_at.push(big);
+        }
+        // reception times: a random interleaving of the files (per-file order kept), on a grid, some ties
+        let grid = *rng.pick(&[1_000u64, 100_000, 1_000_000]);
+        let mut next: Vec<usize> = vec![0; nf];
+        let mut t = RHO + rng.below(3) * grid;
+        let mut msgs: Vec<M> = vec![];
+        let mut files: Vec<Vec<u32>> = vec![vec![]; nf];
+        let boot_t = RHO;
+        loop {
+            let cand: Vec<usize> = (0..nf).filter(|k| next[*k] < ecus[*k].len()).collect();
+            if cand.is_empty() {
+                break;
+            }
+            let k = *rng.pick(&cand);
+            // a file's first message at a time of its own (the property's hypothesis), later ones may tie
+            if next[k] == 0 || !rng.chance(1, 5) {
+                t += rng.range(1, 3) * grid;
+            }
+            let ext = rng.chance(2, 3);
+            files[k].push(msgs.len() as u32);
+            msgs.push(M {
+                ecu: ecus[k][next[k]],
+                rt: t,
+                ts: ((t - boot_t) / 100) as u32,
+                mcnt: (msgs.len() % 256) as u8,
+                ext,
+                apid: if ext { rng.range(1, NIDS) as u8 } else { 0 },
+                ctid: if ext { rng.range(1, NIDS) as u8 } else { 0 },
+                boot: u32::MAX, // chained files overlap in time: no clean-boot ground truth, the detector model is compared
+                fill: 0,
+                creq: false,
+                has_ts: true,
+                lvl: rng.range(1, 6) as u8,
+                ft: 0,
+            });
+            next[k] += 1;
+        }
+        let mut fs: Vec<FileSpec> = files
+            .into_iter()
+            .map(|m| {
+                let g = rng.chance(1, 4);
+                FileSpec { garbage: (0..=m.len()).map(|_| if g && rng.chance(1, 3) { gen_garbage(rng, 12) } else { vec![] }).collect(), msgs: m, missing: false, pad: 0, padk: 0 }
+            })
+            .collect();
+        for k in 0..nf {
+            if let Some((at, nbig)) = big_at[k] {
+                let fill = match shapes[k].1 {
+                    1 => rng.range(8_200, 30_000),
+                    2 => rng.range(33_000, 65_000),
+                    _ => 65_000,
+                } as u32;
+                for i in at - nbig..at {
+                    msgs[fs[k].msgs[i] as usize].fill = fill;
+                }
+                fs[k].padk = rng.below(4) as u8;
+            }
+        }
+        let mut scn = Scn { msgs, files: fs };
+        let mut ok = true;
+        for k in 0..nf {
+            if let Some((at, _)) = big_at[k] {
+                if shapes[k].1 >= 3 {
+                    let delta = if shapes[k].1 == 3 { 0 } else { rng.range(1, 30) as i64 };
+                    ok &= align_to_scan(&mut scn, k, at, delta);
+                }
+            }
+        }
+        if !ok {
+            continue;
+        }
+        // files overlap in time (else chaining and merging give the same sequence)
+        let span = |k: usize| (scn.msgs[scn.files[k].msgs[0] as usize].rt, scn.msgs[*scn.files[k].msgs.last().unwrap() as usize].rt);
+        if !(0..nf).any(|a| (0..nf).any(|b| a != b && span(a).0 < span(b).0 && span(b).0 < span(a).1)) {
+            continue;
+        }
+        let base: Vec<ArgSpec> = (0..nf).map(|k| (k, false)).collect();
+        let mut other = base.clone();
+        other.reverse();
+        if nf > 2 && rng.chance(1, 2) {
+            shuffle(rng, &mut other);
+        }
+        return (scn, vec![base, other]);
+    }
+}
+
+/// family aimed at the probe every input file goes through (class of seeded C01-7): the first message may lie anywhere in
+/// the first 512 KiB and may be as large as a DLT message can be.  Per file: leading garbage (blanks / marker prefixes /
+/// random bytes) and a first message of sizes around 8 KiB, 64 KiB, 512 KiB (`class`), then 1-4 ordinary messages.
+/// Classes: 0-3 garbage around 8 KiB, 4-5 around 64 KiB, 6 random up to 500 KB, 7 the first message ends exactly at the
+/// end of the 512 KiB, 8 it is cut by it (the documented limit: "doesn't contain a DLT message in first 0.5MB"), 9-11 first
+/// message of 8 KiB / 20-40 KB / near maximum size at offset 0, 12 garbage + message together just above 8 KiB, 13 nothing
+/// special (control).
+const PROBE_CLASSES: u64 = 14;
+fn gen_probe_edges(rng: &mut Rng, class0: u64) -> Scn {
+    let nf = *rng.pick(&[1usize, 1, 2, 2, 3]);
+    let necu = rng.range(1, 2) as u8;
+    let grid = *rng.pick(&[1_000u64, 100_000]);
+    let mut msgs: Vec<M> = vec![];
+    let mut fs: Vec<FileSpec> = vec![];
+    let same_set = rng.chance(1, 2);
+    let mut t = RHO;
+    let mut aligns: Vec<(usize, i64)> = vec![];
+    for k in 0..nf {
+        let class = if k == 0 { class0 } else { rng.below(PROBE_CLASSES) };
+        let n = rng.range(2, 5) as usize;
+        let e0 = if same_set { 1 } else { (k as u8 % necu) + 1 };
+        let mut uids = vec![];
+        // consecutive files (a rotating logger) or overlapping ones
+        if rng.chance(1, 2) {
+            t = RHO + rng.below(5) * grid + k as u64 * 7;
+        }
+        for i in 0..n {
+            t += rng.range(1, 3) * grid;
+            let ext = rng.chance(2, 3);
+            uids.push(msgs.len() as u32);
+            msgs.push(M {
+                ecu: if same_set && necu == 2 && i % 2 == 1 { 2 } else { e0 },
+                rt: t,
+                ts: ((t - RHO) / 100) as u32,
+                mcnt: (msgs.len() % 256) as u8,
+                ext,
+                apid: if ext { rng.range(1, NIDS) as u8 } else { 0 },
+                ctid: if ext { rng.range(1, NIDS) as u8 } else { 0 },
+                boot: u32::MAX,
+                fill: 0,
+                creq: false,
+                has_ts: true,
+                lvl: rng.range(1, 6) as u8,
+                ft: 0,
+            });
+        }
+        let first = uids[0] as usize;
+        let mut pad = 0u64;
+        match class {
+            0 => pad = 8192 - rng.below(60),
+            1 => pad = 8192 + rng.below(60),
+            2 => pad = 8192 - rng.below(17), // the storage header starts inside the first 8 KiB
+            3 => pad = rng.range(8_300, 20_000),
+            4 => pad = 65_536 - 30 + rng.below(60),
+            5 => pad = rng.range(66_000, 140_000),
+            6 => pad = 1 << rng.range(0, 18),
+            7 => aligns.push((k, 0)),
+            8 => aligns.push((k, rng.range(1, 40) as i64)),
+            9 => msgs[first].fill = rng.range(8_100, 8_300) as u32,
+            10 => msgs[first].fill = rng.range(20_000, 40_000) as u32,
+            11 => msgs[first].fill = 65_490 - rng.below(40) as u32,
+            12 => {
+                msgs[first].fill = rng.range(3_000, 5_000) as u32;
+                pad = 8_200 - msgs[first].fill as u64 - rng.below(60);
+            }
+            _ => pad = rng.below(30),
+        }
+        let g = rng.chance(1, 3);
+        fs.push(FileSpec {
+            garbage: (0..=n).map(|i| if g && i > 0 && rng.chance(1, 3) { gen_garbage(rng, 12) } else { vec![] }).collect(),
+            msgs: uids,
+            missing: false,
+            pad: pad as u32,
+            padk: rng.below(5) as u8,
+        });
+    }
+    let mut scn = Scn { msgs, files: fs };
+    for (k, d) in aligns {
+        assert!(align_to_scan(&mut scn, k, 0, d));
+    }
+    scn
+}
+
+/// family for `--file_transfer`: one or two files with 1-2 file transfers (FLST, 1-3 FLDA packages, FLFI; verbose
+/// messages of one APID / CTID) between ordinary messages
+fn gen_ft_scn(rng: &mut Rng) -> (Scn, (u8, u8)) {
+    let grid = *rng.pick(&[1_000u64, 100_000]);
+    let (fa, fc) = (rng.range(1, NIDS) as u8, rng.range(1, NIDS) as u8);
+    let nf = rng.range(1, 2) as usize;
+    let mut msgs: Vec<M> = vec![];
+    let mut files: Vec<Vec<u32>> = vec![vec![]; nf];
+    let mut t = RHO;
+    let mut serial = rng.below(50) as u32;
+    let mut plan: Vec<(u8, u32)> = vec![]; // (ft kind, fill)
+    for _ in 0..rng.range(1, 2) {
+        for _ in 0..rng.below(3) {
+            plan.push((0, 0));
+        }
+        serial += 1;
+        let n = rng.range(1, 3) as u32;
+        plan.push((1, serial * 8 + n - 1));
+        for k in 0..n {
+            if rng.chance(1, 3) {
+                plan.push((0, 0));
+            }
+            plan.push((2, serial * 8 + k));
+        }
+        plan.push((3, serial * 8));
+    }
+    for _ in 0..rng.range(1, 3) {
+        plan.push((0, 0));
+    }
+    for (ft, fill) in plan {
+        t += rng.range(1, 3) * grid;
+        let k = rng.below(nf as u64) as usize;
+        let ext = ft != 0 || rng.chance(2, 3);
+        files[k].push(msgs.len() as u32);
+        msgs.push(M {
+            ecu: k as u8 + 1,
+            rt: t,
+            ts: ((t - RHO) / 100) as u32,
+            mcnt: (msgs.len() % 256) as u8,
+            ext,
+            apid: if ft != 0 { fa } else if ext { rng.range(1, NIDS) as u8 } else { 0 },
+            ctid: if ft != 0 { fc } else if ext { rng.range(1, NIDS) as u8 } else { 0 },
+            boot: 0,
+            fill,
+            creq: false,
+            has_ts: true,
+            lvl: if ft != 0 { 4 } else { rng.range(1, 6) as u8 },
+            ft,
+        });
+    }
+    let fs: Vec<FileSpec> = files.into_iter().filter(|m| !m.is_empty()).map(|m| FileSpec { garbage: vec![vec![]; m.len() + 1], msgs: m, missing: false, pad: 0, padk: 0 }).collect();
+    (Scn { msgs, files: fs }, (fa, fc))
+}
+fn gen_ft(rng: &mut Rng, ids: Option<(u8, u8)>) -> Ft {
+    let id = |rng: &mut Rng, own: Option<u8>, apid: bool| -> Option<String> {
+        match rng.below(4) {
+            0 => None,
+            1 => Some(id_str(&if apid { apid_id(rng.range(1, NIDS) as u8) } else { ctid_id(rng.range(1, NIDS) as u8) })),
+            _ => Some(id_str(&match (own, apid) {
+                (Some(a), true) => apid_id(a),
+                (Some(c), false) => ctid_id(c),
+                (None, true) => apid_id(1),
+                (None, false) => ctid_id(1),
+            })),
+        }
+    };
+    Ft { glob: (*rng.pick(&["*.bin", "*", "nomatch*.txt", "f1*"])).to_string(), apid: id(rng, ids.map(|x| x.0), true), ctid: id(rng, ids.map(|x| x.1), false) }
+}
+
+/// `-f <file>` (both formats; at least one enabled positive or negative filter) TOGETHER with one or several `-F`/`--eac`
+/// expressions: the two sources form ONE filter set (the file's negatives veto what the expressions select, its positives
+/// are alternatives to them)
+fn gen_opts_ff(rng: &mut Rng, scn: &Scn, n: usize, variant: u64) -> Opts {
+    let necu = scn.msgs.iter().map(|m| m.ecu).max().unwrap_or(1) as u64;
+    let mut o = Opts::none(*rng.pick(&[1u8, 2, 3, 3, 0]));
+    if variant % 2 == 0 {
+        o.ffmt = 1;
+        let k = rng.range(1, 3);
+        for i in 0..k {
+            let kind = match (variant / 2 % 3, i) {
+                (0, _) => 1,          // negatives only
+                (1, _) => 0,          // positives only
+                (_, 0) => 1,
+                _ => *rng.pick(&[0u8, 0, 1, 2]),
+            };
+            let mut f = if rng.chance(1, 2) {
+                // a single literal criterion on an id that occurs: the filter matches part of the input
+                match rng.below(3) {
+                    0 => Flt::ids(kind, None, Some(&id_str(&apid_id(rng.range(1, NIDS) as u8))), None),
+                    1 => Flt::ids(kind, None, None, Some(&id_str(&ctid_id(rng.range(1, NIDS) as u8)))),
+                    _ => Flt::ids(kind, Some(&id_str(&ecu_id(rng.range(1, necu) as u8))), None, None),
+                }
+            } else {
+                gen_flt(rng, necu, kind, Front::Dlf)
+            };
+            f.kind = kind;
+            f.enabled = i == 0 || !rng.chance(1, 6);
+            o.ffilters.push(f);
+        }
+    } else {
+        o.ffmt = 2;
+        for _ in 0..rng.range(1, 3) {
+            let mut f = Flt::new(0);
+            f.apid = if rng.chance(1, 6) { Some(Crit::lit("")) } else { Some(gen_crit(rng, IdKind::Apid, necu, Front::Conv)) };
+            f.ctid = if rng.chance(1, 6) { Some(Crit::lit("")) } else { Some(gen_crit(rng, IdKind::Ctid, necu, Front::Conv)) };
+            if rng.chance(1, 2) {
+                if let Some(g) = conv_record_of_input(rng, scn) {
+                    f = g;
+                }
+            }
+            o.ffilters.push(f);
+        }
+    }
+    for _ in 0..*rng.pick(&[1u64, 1, 2, 3]) {
+        let f = if rng.chance(1, 2) {
+            match rng.below(3) {
+                0 => Flt::ids(0, Some(&id_str(&ecu_id(rng.range(1, necu) as u8))), None, None),
+                1 => Flt::ids(0, None, Some(&id_str(&apid_id(rng.range(1, NIDS) as u8))), None),
+                _ => Flt::ids(0, None, None, Some(&id_str(&ctid_id(rng.range(1, NIDS) as u8)))),
+            }
+        } else {
+            gen_flt(rng, necu, 0, Front::Eac)
+        };
+        o.eac.push(f);
+    }
+    o.eac_style = rng.below(3) as u8;
+    if rng.chance(1, 4) {
+        o.b = Some(rng.below(n as u64 / 2 + 1) as u32);
+    }
+    if rng.chance(1, 4) {
+        o.e = Some((n as u64 / 2 + rng.below(n as u64 / 2 + 1)) as u32);
+    }
+    o.sort = rng.chance(1, 6);
+    o.ofile = o.style == 0 || rng.chance(1, 3);
+    o
+}
+
+/// hand-made inputs for the classification of the files by ECU set.  f0 = ECU 1 at 1, 3, 5 s; f1 = ECU 2 at 2 s, then
+/// ECU 1 at 4, 6 s (its first message is the only one of ECU 2: set {1, 2}, merged with f0 by time); f2 = ONE message of
+/// ECU 1 at 5.5 s and f3 = ECU 1 at 1.5, 3.5, 7 s (same set as f0: chained by first reception time although they overlap);
+/// f4 = ECU 1 at 2.5, 4.5 s, then ECU 3 at 6.5 s (extra ECU last); f5 = ECU 1 at 0.5 s, ECU 2 at 0.7 s (same set as f1).
+fn corpus_ecu_sets(w: &mut World, plans: &mut Vec<Plan>) {
+    let mut msgs: Vec<M> = vec![];
+    let mut files: Vec<Vec<u32>> = vec![];
+    for f in [
+        vec![(1u8, 10u64), (1, 30), (1, 50)],
+        vec![(2, 20), (1, 40), (1, 60)],
+        vec![(1, 55)],
+        vec![(1, 15), (1, 35), (1, 70)],
+        vec![(1, 25), (1, 45), (3, 65)],
+        vec![(1, 5), (2, 7)],
+    ] {
+        let mut v = vec![];
+        for (ecu, ds) in f {
+            v.push(msgs.len() as u32);
+            let k = msgs.len() as u32;
+            msgs.push(M { ecu, rt: RHO + ds * 100_000, ts: (ds * 1_000) as u32, mcnt: k as u8, ext: k % 3 != 0, apid: if k % 3 != 0 { (k % 4) as u8 + 1 } else { 0 }, ctid: if k % 3 != 0 { 1 } else { 0 }, boot: u32::MAX, fill: 0, creq: false, has_ts: true, lvl: 4, ft: 0 });
+        }
+        files.push(v);
+    }
+    let scn = Scn { msgs, files: files.into_iter().map(|m| FileSpec { garbage: vec![vec![]; m.len() + 1], msgs: m, missing: false, pad: 0, padk: 0 }).collect() };
+    let no = w.scns.len();
+    scn.write_files(&w.root.join(format!("s{}", no)));
+    w.scns.push(scn);
+    for (i, l) in [vec![0usize, 1], vec![1, 0], vec![2, 3], vec![3, 2], vec![0, 4], vec![4, 1, 0], vec![0, 2, 3], vec![5, 1], vec![5, 4, 3, 2, 1, 0]].into_iter().enumerate() {
+        let args: Vec<ArgSpec> = l.iter().map(|k| (*k, false)).collect();
+        plans.push(Plan { scn: no, args: args.clone(), opts: Opts::none(3), tags: vec!["corpus_ecu_sets"] });
+        let mut o = Opts::none(if i % 2 == 0 { 3 } else { 0 });
+        o.b = Some(1);
+        o.e = Some(2 + (i as u32) / 4);
+        o.ofile = true;
+        if i % 3 == 2 {
+            o.eac = vec![Flt::ids(0, Some("EC01"), None, None)];
+        }
+        plans.push(Plan { scn: no, args, opts: o, tags: vec!["corpus_ecu_sets"] });
+    }
 }
 
 fn perms4() -> Vec<Vec<usize>> {
@@ -2567,14 +3317,57 @@ fn main() {
         return;
     }
 
+    if a.tier == "search" {
+        // looking for ONE failing input: rounds of the size of a quick run (without the corpus) under fresh seeds, stop at
+        // the first round in which the oracle fails
+        let (mut inv, mut scns) = (0, 0);
+        for r in 0..6u64 {
+            let (i, n) = run_round(&mut sink, "quick", a.seed.wrapping_mul(1_000_003).wrapping_add(r), a.count, r == 0, par);
+            inv += i;
+            scns += n;
+            if sink.cases.iter().any(|c| matches!(c.verdict, Verdict::Fail { .. })) {
+                break;
+            }
+        }
+        sink.extra_stats.insert("invocations".into(), json!(inv));
+        sink.extra_stats.insert("scenarios".into(), json!(scns));
+        sink.finish();
+        return;
+    }
+    let (inv, scns) = run_round(&mut sink, &a.tier, a.seed, a.count, true, par);
+    sink.extra_stats.insert("invocations".into(), json!(inv));
+    sink.extra_stats.insert("scenarios".into(), json!(scns));
+    sink.finish();
+}
+
+/// one complete plan: corpus (optional), the general scenarios and the families; returns (process runs, scenarios)
+fn run_round(sink: &mut Sink, tier: &str, seed: u64, count: Option<u64>, corpus: bool, par: usize) -> (u64, usize) {
+    let root = tempfile::Builder::new().prefix("c14_").tempdir().unwrap();
+    let mut w = World { root: root.path().to_path_buf(), scns: vec![], results: HashMap::new(), invocations: 0 };
     let mut plans: Vec<Plan> = vec![];
+    if corpus {
+        corpus_plans(&mut w, &mut plans, tier);
+    }
+    generated_plans(&mut w, &mut plans, tier, seed, count, par);
+    let mut jobs = vec![];
+    for p in &plans {
+        jobs.extend(jobs_for(p.scn, &p.args, &p.opts));
+    }
+    w.run_jobs(jobs, par);
+    for p in &plans {
+        record(sink, &w, p.scn, &p.args, &p.opts, &p.tags);
+    }
+    (w.invocations, w.scns.len())
+}
+
+fn corpus_plans(w: &mut World, plans: &mut Vec<Plan>, tier: &str) {
     // ---- corpus: the tie witness under several argument orders
     {
         let scn = corpus_tie();
         scn.write_files(&w.root.join("s0"));
         w.scns.push(scn);
         for (i, p) in perms4().into_iter().enumerate() {
-            if a.tier == "quick" && i % 4 != 1 && i != 0 {
+            if tier == "quick" && i % 4 != 1 && i != 0 {
                 continue;
             }
             plans.push(Plan { scn: 0, args: p.iter().map(|k| (*k, false)).collect(), opts: Opts::none(3), tags: vec!["corpus_tie"] });
@@ -2638,12 +3431,16 @@ fn main() {
             plans.push(Plan { scn: no, args: l.iter().map(|k| (*k, false)).collect(), opts: Opts::none(1), tags: vec!["corpus_stream_files"] });
         }
     }
-    let nscn = a.count.unwrap_or(match a.tier.as_str() {
+    corpus_ecu_sets(w, plans);
+}
+
+fn generated_plans(w: &mut World, plans: &mut Vec<Plan>, tier: &str, seed: u64, count: Option<u64>, par: usize) {
+    let nscn = count.unwrap_or(match tier {
         "quick" => 24,
         "thorough" => 170,
         _ => 400,
     });
-    let mut rng = Rng::new(a.seed);
+    let mut rng = Rng::new(seed);
     // phase 1: scenarios and their baselines
     let first_gen = w.scns.len();
     let mut arg_sets: Vec<Vec<Vec<ArgSpec>>> = vec![vec![]; first_gen];
@@ -2676,14 +3473,11 @@ fn main() {
             jobs.extend(jobs_for(no, l, &Opts::none(3)));
         }
     }
-    for p in &plans {
-        jobs.extend(jobs_for(p.scn, &p.args, &p.opts));
-    }
     w.run_jobs(jobs, par);
     // phase 2: option combinations, knowing the size of the input and the number of lifecycles
     for no in first_gen..w.scns.len() {
         for (li, l) in arg_sets[no].clone().iter().enumerate() {
-            let pb = parse_out(&w.scns[no], w.get(no, l, &Opts::none(3)), 3);
+            let pb = parse_out(&w.scns[no], w.get(no, l, &Opts::none(3)), 3, false);
             let t = truth(&w.scns[no], &pb.screen);
             plans.push(Plan { scn: no, args: l.clone(), opts: Opts::none(3), tags: vec!["baseline"] });
             if li == 0 {
@@ -2699,13 +3493,129 @@ fn main() {
             }
         }
     }
+    // ---- a filter file together with -F expressions (one filter set from two sources): one run per general scenario
+    let mut rng5 = Rng::new(seed ^ 0xffac_c14);
+    for no in first_gen..w.scns.len() {
+        let l = arg_sets[no][(no % 2).min(arg_sets[no].len() - 1)].clone();
+        let n = parse_out(&w.scns[no], w.get(no, &l, &Opts::none(3)), 3, false).screen.len();
+        let o = gen_opts_ff(&mut rng5, &w.scns[no], n, no as u64);
+        plans.push(Plan { scn: no, args: l, opts: o, tags: vec!["filter_file_and_eac"] });
+    }
+    // ---- family aimed at the classification of the files by ECU set (equal sets chained, different sets merged)
+    let nedges = match tier {
+        "quick" => 10,
+        "thorough" => 60,
+        _ => 150,
+    };
+    let mut rng6 = Rng::new(seed ^ 0xec5e_c14);
+    for i in 0..nedges {
+        // the first scenarios of a run go through the shapes once (quick reaches every shape), then random ones
+        const FORCED: [(u8, u8); 8] = [(1, 0), (4, 0), (2, 0), (2, 1), (3, 2), (2, 3), (2, 4), (5, 0)];
+        let force = if i < FORCED.len() { Some(FORCED[i]) } else { None };
+        let (scn, lists) = gen_ecu_edges(&mut rng6, force);
+        let no = w.scns.len();
+        scn.write_files(&w.root.join(format!("s{}", no)));
+        let n = scn.msgs.len();
+        for (li, l) in lists.into_iter().enumerate() {
+            let mut os = vec![Opts::none(if li == 0 { 3 } else { 1 })];
+            // index-dependent selections: a window in the middle of the input, also combined with an ECU expression, to the screen and to a file
+            let mut win = Opts::none(if li == 0 { 3 } else { 0 });
+            win.b = Some(rng6.range(1, 2) as u32);
+            win.e = Some((n as u64 / 2 + rng6.below(2)) as u32);
+            win.ofile = true;
+            os.push(win);
+            if li == 0 {
+                let mut listing = Opts::none(0);
+                listing.ofile = true;
+                os.push(listing);
+                let mut we = Opts::none(1);
+                we.b = Some(rng6.below(3) as u32);
+                we.e = Some((n as u64 * 2 / 3) as u32);
+                we.eac = vec![Flt::ids(0, Some(&id_str(&ecu_id(1))), None, None)];
+                we.ofile = rng6.chance(1, 2);
+                os.push(we);
+                os.push(gen_opts(&mut rng6, &scn, n, 2, false, 0));
+            }
+            for o in os {
+                plans.push(Plan { scn: no, args: l.clone(), opts: o, tags: vec!["ecu_set_edges"] });
+            }
+        }
+        w.scns.push(scn);
+    }
+    // ---- family aimed at the probe: first message behind long garbage / a large first message, one and several files
+    let nprobe = match tier {
+        "quick" => PROBE_CLASSES,
+        "thorough" => 5 * PROBE_CLASSES,
+        _ => 10 * PROBE_CLASSES,
+    };
+    let mut rng7 = Rng::new(seed ^ 0x9e0b_c14);
+    for i in 0..nprobe {
+        let scn = gen_probe_edges(&mut rng7, (i + seed) % PROBE_CLASSES);
+        let no = w.scns.len();
+        scn.write_files(&w.root.join(format!("s{}", no)));
+        let n = scn.msgs.len();
+        let mut args: Vec<ArgSpec> = (0..scn.files.len()).map(|k| (k, false)).collect();
+        if rng7.chance(1, 2) {
+            args.reverse();
+        }
+        let mut whole = Opts::none(0);
+        whole.ofile = true;
+        let os = vec![Opts::none(3), whole, gen_opts(&mut rng7, &scn, n, 2, false, 0)];
+        w.scns.push(scn);
+        for o in os {
+            plans.push(Plan { scn: no, args: args.clone(), opts: o, tags: vec!["probe_edges"] });
+        }
+    }
+    // ---- family for --file_transfer: inputs with FLST / FLDA / FLFI messages, the option combined with selections
+    let nft = match tier {
+        "quick" => 4,
+        "thorough" => 24,
+        _ => 60,
+    };
+    let mut rng8 = Rng::new(seed ^ 0xf7_c14);
+    for _ in 0..nft {
+        let (scn, ids) = gen_ft_scn(&mut rng8);
+        let no = w.scns.len();
+        scn.write_files(&w.root.join(format!("s{}", no)));
+        let n = scn.msgs.len();
+        let mut args: Vec<ArgSpec> = (0..scn.files.len()).map(|k| (k, false)).collect();
+        if rng8.chance(1, 2) {
+            args.reverse();
+        }
+        let mut os = vec![];
+        let mut o = Opts::none(3);
+        o.ft = Some(Ft { glob: "*.bin".into(), apid: None, ctid: None });
+        os.push(o);
+        let mut o = Opts::none(0);
+        o.ofile = true;
+        o.ft = Some(gen_ft(&mut rng8, Some(ids)));
+        os.push(o);
+        let mut o = Opts::none(1);
+        o.b = Some(1);
+        o.e = Some((n * 2 / 3) as u32);
+        o.ofile = true;
+        o.ft = Some(gen_ft(&mut rng8, Some(ids)));
+        os.push(o);
+        let mut o = Opts::none(3);
+        o.eac = vec![Flt::ids(0, None, Some(&id_str(&apid_id(ids.0))), None)];
+        o.ofile = rng8.chance(1, 2);
+        o.ft = Some(gen_ft(&mut rng8, Some(ids)));
+        os.push(o);
+        let mut o = gen_opts(&mut rng8, &scn, n, 2, true, 0);
+        o.ft = Some(gen_ft(&mut rng8, Some(ids)));
+        os.push(o);
+        w.scns.push(scn);
+        for o in os {
+            plans.push(Plan { scn: no, args: args.clone(), opts: o, tags: vec!["file_transfer_option"] });
+        }
+    }
     // ---- family aimed at the order of the streams: every scenario under 5 argument orders
-    let nmulti = match a.tier.as_str() {
+    let nmulti = match tier {
         "quick" => 10,
         "thorough" => 80,
         _ => 250,
     };
-    let mut rng2 = Rng::new(a.seed ^ 0x5eed_c14);
+    let mut rng2 = Rng::new(seed ^ 0x5eed_c14);
     for _ in 0..nmulti {
         let (scn, lists) = gen_multi(&mut rng2);
         let no = w.scns.len();
@@ -2716,12 +3626,12 @@ fn main() {
         }
     }
     // ---- family aimed at the per-stream sort + dedup: different files of one stream with the same first reception time
-    let ntied = match a.tier.as_str() {
+    let ntied = match tier {
         "quick" => 6,
         "thorough" => 40,
         _ => 120,
     };
-    let mut rng4 = Rng::new(a.seed ^ 0x71ed_c14);
+    let mut rng4 = Rng::new(seed ^ 0x71ed_c14);
     for _ in 0..ntied {
         let (scn, lists) = gen_tied(&mut rng4);
         let no = w.scns.len();
@@ -2746,12 +3656,12 @@ fn main() {
         }
     }
     // ---- family for --sort: suspended and resumed lifecycles whose start estimate moves before the origin's
-    let nresume = match a.tier.as_str() {
+    let nresume = match tier {
         "quick" => 6,
         "thorough" => 40,
         _ => 120,
     };
-    let mut rng3 = Rng::new(a.seed ^ 0x7e5_c14);
+    let mut rng3 = Rng::new(seed ^ 0x7e5_c14);
     for _ in 0..nresume {
         let scn = gen_resume(&mut rng3);
         let no = w.scns.len();
@@ -2787,15 +3697,4 @@ fn main() {
             plans.push(Plan { scn: no, args: args.clone(), opts: o, tags: vec!["resume_sort"] });
         }
     }
-    let mut jobs = vec![];
-    for p in &plans {
-        jobs.extend(jobs_for(p.scn, &p.args, &p.opts));
-    }
-    w.run_jobs(jobs, par);
-    for p in &plans {
-        record(&mut sink, &w, p.scn, &p.args, &p.opts, &p.tags);
-    }
-    sink.extra_stats.insert("invocations".into(), json!(w.invocations));
-    sink.extra_stats.insert("scenarios".into(), json!(w.scns.len()));
-    sink.finish();
 }
